@@ -22,12 +22,13 @@ VARIABLES br,        \* [Browsers -> session the browser's jar holds]   age: fre
           allowed,   \* users the e-mail rules admit right now (the e-mails file)
           idpOK,     \* the IdP answers refresh requests
           member,    \* users who are in the allowed group AT THE IDP right now (a session learns of a change only by a refresh or a new login)
+          pw,        \* version (1 / 2) of the password the htpasswd file lists for the basic-auth user right now
           usedRT,    \* cookie store: <<sid, gen>> whose refresh token the IdP has already redeemed (it rotates them)
           nsid, hist,
           proj       \* history of the abstract state's projection after every step (compared with the real proxy's state: conformance)
-vars == <<br, stored, snaps, allowed, idpOK, member, usedRT, nsid, hist, proj>>
+vars == <<br, stored, snaps, allowed, idpOK, member, pw, usedRT, nsid, hist, proj>>
 
-Init == /\ br = [b \in Browsers |-> NoSess] /\ stored = {} /\ snaps = <<>> /\ allowed = {"alice"} /\ idpOK = TRUE /\ member = Users /\ usedRT = {} /\ nsid = 0 /\ hist = <<>> /\ proj = <<>>
+Init == /\ br = [b \in Browsers |-> NoSess] /\ stored = {} /\ snaps = <<>> /\ allowed = {"alice"} /\ idpOK = TRUE /\ member = Users /\ pw = 1 /\ usedRT = {} /\ nsid = 0 /\ hist = <<>> /\ proj = <<>>
 
 Step(a, args, req) == hist' = Append(hist, [a |-> a, args |-> args, req |-> req])
 More == Len(hist) < MaxSteps
@@ -56,7 +57,7 @@ Login(b, u) ==
             /\ Step("login", [b |-> b, user |-> u], [session |-> "set"])
        ELSE /\ Step("login", [b |-> b, user |-> u], [session |-> [not |-> "set"]])
             /\ UNCHANGED <<br, stored, snaps, nsid>>
-    /\ UNCHANGED <<allowed, idpOK, member, usedRT>>
+    /\ UNCHANGED <<allowed, idpOK, member, pw, usedRT>>
 
 \* a request to a protected path / the auth-only endpoint / userinfo
 Request(b, ep) ==
@@ -76,7 +77,7 @@ Request(b, ep) ==
                   /\ stored' = IF Store = "redis" /\ Exists(s) THEN stored \ {s.sid} ELSE stored
                   /\ Step("request", [b |-> b, ep |-> ep], [served |-> FALSE, status |-> [oneof |-> <<401, 403>>]])
                   /\ UNCHANGED snaps
-    /\ UNCHANGED <<allowed, idpOK, member, nsid>>
+    /\ UNCHANGED <<allowed, idpOK, member, pw, nsid>>
 
 SignOut(b) ==
     /\ More /\ br[b].user # "none"
@@ -87,7 +88,7 @@ SignOut(b) ==
     \* the sign-out request passes the session loader like any other: a stale session is refreshed first (its refresh token is spent)
     /\ usedRT' = IF Refreshes(br[b]) /\ Store = "cookie" THEN usedRT \cup {<<br[b].sid, br[b].gen>>} ELSE usedRT
     /\ Step("signout", [b |-> b], [status |-> 302, stillSignedIn |-> FALSE])
-    /\ UNCHANGED <<snaps, allowed, idpOK, member, nsid>>
+    /\ UNCHANGED <<snaps, allowed, idpOK, member, pw, nsid>>
 
 \* an old credential of ANY browser is presented by browser b (theft / replay)
 Replay(b, i) ==
@@ -104,7 +105,7 @@ Replay(b, i) ==
           /\ snaps' = IF refresh /\ live THEN [k \in 1..Len(snaps) |-> [snaps[k] EXCEPT !.sess = Renew(@, s)]] ELSE snaps
           /\ usedRT' = IF refresh /\ Store = "cookie" THEN usedRT \cup {<<s.sid, s.gen>>} ELSE usedRT
           /\ stored' = IF Store = "redis" /\ Exists(s) /\ ~live THEN stored \ {s.sid} ELSE stored
-    /\ UNCHANGED <<allowed, idpOK, member, nsid>>
+    /\ UNCHANGED <<allowed, idpOK, member, pw, nsid>>
 
 \* ---- environment steps ---------------------------------------------------------------------------
 \* time passes for browser b's session
@@ -115,33 +116,44 @@ Age(b, to) ==
     \* time passes for every credential of that session (older generations are at least as old)
     /\ snaps' = [i \in 1..Len(snaps) |-> IF snaps[i].sess.sid = br[b].sid THEN [snaps[i] EXCEPT !.sess.age = to] ELSE snaps[i]]
     /\ Step("age", [b |-> b, to |-> to], [ok |-> TRUE])
-    /\ UNCHANGED <<stored, allowed, idpOK, member, usedRT, nsid>>
+    /\ UNCHANGED <<stored, allowed, idpOK, member, pw, usedRT, nsid>>
 Tamper(b) ==
     /\ More /\ br[b].user # "none" /\ ~br[b].tampered
     /\ br' = [br EXCEPT ![b].tampered = TRUE]
     /\ Step("tamper", [b |-> b], [ok |-> TRUE])
-    /\ UNCHANGED <<stored, snaps, allowed, idpOK, member, usedRT, nsid>>
+    /\ UNCHANGED <<stored, snaps, allowed, idpOK, member, pw, usedRT, nsid>>
 RulesChange ==
     /\ More
     /\ allowed' = IF "bob" \in allowed THEN {"alice"} ELSE {"alice", "bob"}
     /\ Step("rules", [allowed |-> IF "bob" \in allowed THEN <<"alice">> ELSE <<"alice", "bob">>], [reloaded |-> TRUE])
-    /\ UNCHANGED <<br, stored, snaps, idpOK, member, usedRT, nsid>>
+    /\ UNCHANGED <<br, stored, snaps, idpOK, member, pw, usedRT, nsid>>
 \* the user's group membership changes at the identity provider
 GroupChange(u) ==
     /\ More
     /\ member' = IF u \in member THEN member \ {u} ELSE member \cup {u}
     /\ Step("groups", [user |-> u, member |-> u \notin member], [ok |-> TRUE])
-    /\ UNCHANGED <<br, stored, snaps, allowed, idpOK, usedRT, nsid>>
+    /\ UNCHANGED <<br, stored, snaps, allowed, idpOK, pw, usedRT, nsid>>
+\* basic authentication against the htpasswd file (a bcrypt entry): the password presented must be the one listed NOW;
+\* the operator rotates it by rewriting the file (watched and reloaded)
+BasicRequest(b, v) ==
+    /\ More
+    /\ Step("basic", [b |-> b, v |-> v], IF v = pw THEN [served |-> TRUE, user |-> "hp"] ELSE [served |-> FALSE, status |-> [oneof |-> <<401, 403>>]])
+    /\ UNCHANGED <<br, stored, snaps, allowed, idpOK, member, pw, usedRT, nsid>>
+PwChange ==
+    /\ More
+    /\ pw' = 3 - pw
+    /\ Step("pwchange", [to |-> 3 - pw], [reloaded |-> TRUE])
+    /\ UNCHANGED <<br, stored, snaps, allowed, idpOK, member, usedRT, nsid>>
 IdPToggle ==
     /\ More /\ RefreshOn
     /\ idpOK' = ~idpOK
     /\ Step("idp", [ok |-> ~idpOK], [ok |-> TRUE])
-    /\ UNCHANGED <<br, stored, snaps, allowed, member, usedRT, nsid>>
+    /\ UNCHANGED <<br, stored, snaps, allowed, member, pw, usedRT, nsid>>
 StoreFlush ==
     /\ More /\ Store = "redis" /\ stored # {}
     /\ stored' = {}
     /\ Step("flush", [n |-> Cardinality(stored)], [ok |-> TRUE])
-    /\ UNCHANGED <<br, snaps, allowed, idpOK, member, usedRT, nsid>>
+    /\ UNCHANGED <<br, snaps, allowed, idpOK, member, pw, usedRT, nsid>>
 
 \* what can be seen of the state from outside: does each browser hold a session cookie, how many sessions does the store hold
 Proj == [b1 |-> br["b1"].user # "none", b2 |-> br["b2"].user # "none", nstored |-> IF Store = "redis" THEN Cardinality(stored) ELSE 0]
@@ -153,6 +165,7 @@ Next == \/ (\E b \in Browsers, u \in Users : Login(b, u)) /\ P
         \/ (\E b \in Browsers, i \in 1..3 : Replay(b, Len(snaps) + 1 - i)) /\ P
         \/ (\E b \in Browsers, to \in {"stale", "expired"} : Age(b, to)) /\ P
         \/ (RulesChange \/ IdPToggle \/ StoreFlush \/ GroupChange("alice")) /\ P
+        \/ (PwChange \/ \E b \in Browsers, v \in {1, 2} : BasicRequest(b, v)) /\ P
 
 \* ---- model-level properties -------------------------------------------------------------------------
 \* a browser is only ever served as the user of the credential it presents
